@@ -62,8 +62,8 @@ Proof.
   intros fs d W. unfold Package.check_rdf.
   pose proof (d_tree_sem xml bytes kid par fs MANIFEST d W is_xml_MANIFEST) as [_ [_ [_ [W1 _]]]].
   destruct (d_tree fs MANIFEST d) as [d1 [xm|]]; cbn [fst] in *; [|exact W1].
-  destruct (match m_get RDF (entries xm) with Some m => negb (m =? EMPTYMT) | None => false end);
-    destruct (memz RDF (c_listing bytes kid fs (cont _ _ d1))); cbn [fst]; try exact W1.
+  destruct (rdf_listed FIXED (entries xm));
+    destruct (memz RDF (c_listing bytes kid FIXED fs (cont _ _ d1))); cbn [fst]; try exact W1.
   - destruct (c_set_part_sem bytes kid fs RDF rdf0 (cont _ _ d1) (wfd_c _ _ _ _ _ W1)) as [S1 [S2 _]].
     apply with_cont_wf; [exact W1|exact S2|]. intros m Hm Hb. rewrite S1. destruct (m =? RDF); [discriminate|exact Hb].
   - destruct (c_del_part_sem bytes kid fs RDF (cont _ _ d1) (wfd_c _ _ _ _ _ W1)) as [S1 [S2 _]].
